@@ -188,6 +188,14 @@ func explainSelectQueryWithInheritedWith(sb *strings.Builder, stmt ast.Statement
 	if sq.Top != nil {
 		Node(sb, sq.Top, depth+1)
 	}
+	// DISTINCT ON columns (counted by countSelectQueryChildren, so they must be output here too)
+	if len(sq.DistinctOn) > 0 {
+		fmt.Fprintf(sb, "%s Literal UInt64_1\n", indent)
+		fmt.Fprintf(sb, "%s ExpressionList (children %d)\n", indent, len(sq.DistinctOn))
+		for _, col := range sq.DistinctOn {
+			Node(sb, col, depth+2)
+		}
+	}
 
 	// Inherited WITH clause (ExpressionList) - output at the END
 	fmt.Fprintf(sb, "%s ExpressionList (children %d)\n", indent, len(inheritedWith))
